@@ -206,7 +206,7 @@ func C11(r *drv.Run) {
 		nrand = 300000
 	}
 	nl := len(c11Leaves())
-	r.Rule = fmt.Sprintf("every PAIR of binary operators (13 x 13) in both groupings over five small leaves, rendered with minimal parentheses; exhaustive: every unary operator x %d leaves and every binary operator x %d x %d leaves", nl, nl, nl) + " (string/number/bool literals at boundary values '', '0', '7', '12', 'abc', '+3', ' 4', '010', '0x1F', '1_000', '1e3', '3.5', an overflowing digit string, the largest and smallest 64-bit integers as strings and as numbers, number literals beyond the signed 64-bit range (value 0), names differing from assigned variables and built-ins only in letter case (unassigned: the empty string), 0, 1, 2, -1, 7, 12, true, false, and variables bound by set and by a capture) that the documented table types; plus chains of 9..13 operands joined by + with parenthesised groups on right-hand sides; plus seeded random well-typed trees of depth <= 3, each rendered with minimal AND with full parentheses (precedence and associativity) and with its keywords (true false not head tail and or) in UPPER or Capitalised case. Observation: a transform returning the expression (booleans through if/else) and a predicate returning it (match / no match). Oracle: evaluator transcribed from the documentation tables (harness/proc). Byte strings from the searched text: the six comparison operators over two captured tokens, their heads and tails and a literal (42 expressions) on all ordered pairs of 20 tokens - ASCII, accented letters in both cases, a three- and a four-byte character, and pieces of them that are not valid UTF-8 (lone lead and continuation bytes, 0xFF, 0xFE 0xFF): strings are ordered byte by byte. Non-trivial = every expression whose observed value equalled the expected one is a distinct checked cell; distinct by expression text."
+	r.Rule = fmt.Sprintf("the built-in matchNumber inside transforms (a string for the checker, a number at run time): every unary and binary operator with it on either side against ten operands, and eight nested shapes, over twelve matches; every PAIR of binary operators (13 x 13) in both groupings over five small leaves, rendered with minimal parentheses; exhaustive: every unary operator x %d leaves and every binary operator x %d x %d leaves", nl, nl, nl) + " (string/number/bool literals at boundary values '', '0', '7', '12', 'abc', '+3', ' 4', '010', '0x1F', '1_000', '1e3', '3.5', an overflowing digit string, the largest and smallest 64-bit integers as strings and as numbers, number literals beyond the signed 64-bit range (value 0), names differing from assigned variables and built-ins only in letter case (unassigned: the empty string), 0, 1, 2, -1, 7, 12, true, false, and variables bound by set and by a capture) that the documented table types; plus chains of 9..13 operands joined by + with parenthesised groups on right-hand sides; plus seeded random well-typed trees of depth <= 3, each rendered with minimal AND with full parentheses (precedence and associativity) and with its keywords (true false not head tail and or) in UPPER or Capitalised case. Observation: a transform returning the expression (booleans through if/else) and a predicate returning it (match / no match). Oracle: evaluator transcribed from the documentation tables (harness/proc). Byte strings from the searched text: the six comparison operators over two captured tokens, their heads and tails and a literal (42 expressions) on all ordered pairs of 20 tokens - ASCII, accented letters in both cases, a three- and a four-byte character, and pieces of them that are not valid UTF-8 (lone lead and continuation bytes, 0xFF, 0xFE 0xFF): strings are ordered byte by byte. Non-trivial = every expression whose observed value equalled the expected one is a distinct checked cell; distinct by expression text."
 	r.Assumptions = []string{
 		"division and modulo by zero are not generated (no documented result; see known finding K1 under C09)",
 		"left open by the documentation and always parenthesised explicitly: unary operators over binary operands, ==/!= mixed with </>/<=/>= in one chain",
@@ -381,6 +381,7 @@ func C11(r *drv.Run) {
 		}}
 	})
 	c11Bytes(r)
+	c11MatchNumber(r)
 	if r.NViolations() == 0 {
 		for _, k := range []string{"expr_tree-minimal-parens", "expr_tree-full-parens", "expr_tree-with-a-comment-in-every-gap", "expr_string +", "expr_number ==", "expr_bool and", "expr_head", "expr_string -"} {
 			if r.Counter(k) == 0 {
